@@ -18,6 +18,7 @@ import (
 	"github.com/evanw/esbuild/internal/fs"
 	"github.com/evanw/esbuild/internal/linker"
 	"github.com/evanw/esbuild/internal/helpers"
+	"github.com/evanw/esbuild/internal/js_parser"
 	"github.com/evanw/esbuild/internal/logger"
 	"github.com/evanw/esbuild/internal/sourcemap"
 	"github.com/evanw/esbuild/pkg/api"
@@ -236,7 +237,7 @@ func fnoOf(i ast.Index32) int64 {
 
 func runC07(seed uint64, n int, tier string, outDir string) []*Stats {
 	r := NewRng(seed)
-	cf := NewCoqFile("From V Require Import Common.Base C07.Vlq C07.SpecMap C07.Mappings C07.Shift C07.Harness.")
+	cf := NewCoqFile("From V Require Import Common.Base C07.Vlq C07.SpecMap C07.Mappings C07.Shift C07.Harness C07.HarnessParse.")
 	st := NewStats("c07", seed)
 	note := st.Note
 
@@ -561,6 +562,15 @@ func runC07(seed uint64, n int, tier string, outDir string) []*Stats {
 		biItems = append(biItems, genBuilderInCase(r, st))
 	}
 	cf.AddCases("builderin_cases", "bytes * list (list Z) * list Z * list (Z * Z * bytes) * bytes * bytes * Z * list Z * list Z * bool * Z * bool", "check_builderin", biItems)
+
+	// --- js_parser.ParseSourceMap: order of the returned mappings (needSort) vs ParseMap.v
+	var pmItems []string
+	for i := 0; i < n/3; i++ {
+		if it := genParseMapCase(r, st); it != "" {
+			pmItems = append(pmItems, it)
+		}
+	}
+	cf.AddCases("parsemap_cases", "list (Z * Z * Z * Z * list Z) * Z * Z * Z * list (Z * Z * Z * Z * Z * Z)", "check_parsemap", pmItems)
 
 	// --- fixed corpus of known findings, then real builds with marker programs
 	glueKnownFindings(st)
@@ -1685,4 +1695,148 @@ func cutProbes(st *Stats) {
 			}
 		}
 	}
+}
+
+// ---------------------------------------------------------------------------
+// js_parser.ParseSourceMap: decoded mappings and their order
+
+func genParseMapCase(r *Rng, st *Stats) string {
+	type sec struct {
+		lo, co, sl, nl int
+		raw            string
+	}
+	nsec := 1
+	if r.Chance(30) {
+		nsec = 2 + r.Intn(2)
+	}
+	var secs []sec
+	for k := 0; k < nsec; k++ {
+		s := sec{sl: 1 + r.Intn(3), nl: r.Intn(3)}
+		if nsec > 1 || r.Chance(15) {
+			s.lo, s.co = r.Intn(3)+k, r.Intn(6)
+			if r.Chance(15) {
+				s.lo = r.Intn(2) // may start before the previous section ended
+			}
+		}
+		// mostly well-formed mappings; sometimes negative column deltas, repeated
+		// positions, one-field segments, out-of-range indices, junk
+		var b []byte
+		nseg := r.Range(1, 9)
+		gcol, si, ol, oc, on := s.co, 0, 0, 0, 0
+		firstLine := true
+		for q := 0; q < nseg; q++ {
+			if q > 0 {
+				if r.Chance(30) {
+					b = append(b, ';')
+					gcol, firstLine = 0, false
+				} else {
+					b = append(b, ',')
+				}
+			}
+			d := r.Intn(5)
+			if r.Chance(15) {
+				d = -r.Intn(gcol + 1) // a negative delta that keeps the column valid: needSort
+				if firstLine && gcol+d < s.co {
+					d = 0
+				}
+			}
+			if r.Chance(10) {
+				d = 0 // repeated generated position
+			}
+			if r.Chance(2) {
+				d = -gcol - 1 - r.Intn(2) // invalid: negative column
+			}
+			gcol += d
+			b = sourcemap.VerifEncodeVLQ(b, d)
+			if r.Chance(10) {
+				continue // one-field segment
+			}
+			pick := func(cur, hi int) int { // a delta that lands in [0, hi), sometimes outside
+				if r.Chance(2) {
+					return r.Intn(2*hi+3) - hi - 1 - cur
+				}
+				return r.Intn(hi) - cur
+			}
+			d1 := pick(si, s.sl)
+			si += d1
+			d2 := pick(ol, 6)
+			ol += d2
+			d3 := pick(oc, 9)
+			oc += d3
+			b = sourcemap.VerifEncodeVLQ(b, d1)
+			b = sourcemap.VerifEncodeVLQ(b, d2)
+			b = sourcemap.VerifEncodeVLQ(b, d3)
+			if s.nl > 0 && r.Chance(40) {
+				d4 := pick(on, s.nl)
+				on += d4
+				b = sourcemap.VerifEncodeVLQ(b, d4)
+			}
+		}
+		if r.Chance(4) {
+			b = append(b, "!~ é"[r.Intn(4)])
+		}
+		s.raw = string(b)
+		secs = append(secs, s)
+	}
+	mapJSON := func(s sec) string {
+		var src, nm []string
+		for i := 0; i < s.sl; i++ {
+			src = append(src, fmt.Sprintf("\"s%d.js\"", i))
+		}
+		for i := 0; i < s.nl; i++ {
+			nm = append(nm, fmt.Sprintf("\"n%d\"", i))
+		}
+		q, _ := json.Marshal(s.raw)
+		return fmt.Sprintf(`{"version":3,"sources":[%s],"names":[%s],"mappings":%s}`, strings.Join(src, ","), strings.Join(nm, ","), q)
+	}
+	var doc string
+	if len(secs) == 1 && secs[0].lo == 0 && secs[0].co == 0 {
+		doc = mapJSON(secs[0])
+	} else {
+		var parts []string
+		for _, s := range secs {
+			parts = append(parts, fmt.Sprintf(`{"offset":{"line":%d,"column":%d},"map":%s}`, s.lo, s.co, mapJSON(s)))
+		}
+		doc = `{"version":3,"sections":[` + strings.Join(parts, ",") + `]}`
+	}
+	log := logger.NewDeferLog(logger.DeferLogAll, nil)
+	sm := js_parser.ParseSourceMap(log, logger.Source{KeyPath: logger.Path{Text: "<map>"}, Contents: doc})
+	for _, m := range log.Done() {
+		if m.Kind == logger.Error {
+			return "" // JSON-level error: not the mappings loop
+		}
+	}
+	kind, ns, nn := 0, 0, 0
+	var mapItems []string
+	if sm != nil {
+		kind, ns, nn = 1, len(sm.Sources), len(sm.Names)
+		for i, m := range sm.Mappings {
+			name := int64(-1)
+			if m.OriginalName.IsValid() {
+				name = int64(m.OriginalName.GetIndex())
+			}
+			mapItems = append(mapItems, fmt.Sprintf("(%d,%d,%d,%d,%d,%s)", m.GeneratedLine, m.GeneratedColumn, m.SourceIndex, m.OriginalLine, m.OriginalColumn, CZ(name)))
+			input := map[string]interface{}{"scenario": "parse-source-map", "doc": doc}
+			// what SourceMap.Find and ChunkBuilder.appendMapping rely on
+			if i > 0 {
+				p := sm.Mappings[i-1]
+				if p.GeneratedLine > m.GeneratedLine || (p.GeneratedLine == m.GeneratedLine && p.GeneratedColumn > m.GeneratedColumn) {
+					st.Fail("parsed-map-unsorted", input, fmt.Sprint(sm.Mappings), "mappings sorted by generated position")
+				}
+			}
+			if int(m.SourceIndex) < 0 || int(m.SourceIndex) >= ns || (name >= 0 && int(name) >= nn) {
+				st.Fail("parsed-map-index-out-of-range", input, fmt.Sprintf("%+v sources=%d names=%d", m, ns, nn), "source < len(Sources), name < len(Names)")
+			}
+		}
+	}
+	var secItems []string
+	for _, s := range secs {
+		var units []int64
+		for _, c := range s.raw { // JSON string -> UTF-16 units (all BMP here)
+			units = append(units, int64(c))
+		}
+		secItems = append(secItems, fmt.Sprintf("(%d,%d,%d,%d,%s)", s.lo, s.co, s.sl, s.nl, CZList(units)))
+	}
+	st.Note("parsemap", doc, sm != nil && len(sm.Mappings) > 1)
+	return fmt.Sprintf("([%s],%d,%d,%d,[%s])", strings.Join(secItems, ";"), kind, ns, nn, strings.Join(mapItems, ";"))
 }
